@@ -332,8 +332,8 @@ func (p *Program) inlinedResults(fn *Func, x ast.Expr) ([]ast.Expr, *Func, bool)
 	}
 	evs := p.cur.path.Events
 	for j, ev := range evs {
-		if ev.Kind != EvCall || ev.Call != call || ev.Fn != fn {
-			continue
+		if ev.Kind != EvCall || ev.Call != call || (ev.Fn != fn && (ev.Fn == nil || ev.Fn.root() != fn.root())) {
+			continue // (a closure of the calling function sees the call through the enclosing function)
 		}
 		if j+1 >= len(evs) || evs[j+1].Kind != EvEnter || !evs[j+1].Helper || evs[j+1].ViaCall != call {
 			return nil, nil, false
